@@ -135,6 +135,12 @@ extern "C" int min_native(int problem, int strategy, unsigned max_iter, const do
     auto f  = [&](const SO3d & g) -> Eigen::Vector3d { return g - target; };
     auto cb = [&](const SO3d & g) { rec.push_back(f(g).squaredNorm()); };
     res = minimize<diff::Type::Numerical>(f, wrt(x), cb, opts);
+  } else if (problem == 3) {
+    // poorly scaled polynomial residual: the predicted reduction is below the rounding of 1 - (.)^2
+    double x = x0[0];
+    auto f  = [](const double & v) -> Eigen::Vector2d { return Eigen::Vector2d(1., 1e-9 + 1e-9 * v + v * v); };
+    auto cb = [&](const double & v) { rec.push_back(f(v).squaredNorm()); };
+    res = minimize<diff::Type::Numerical>(f, wrt(x), cb, opts);
   } else {
     Eigen::Vector3d x(x0[0], x0[1], x0[2]);
     Eigen::Matrix3d A; A << 1, 2, 3, 2, 4, 6, 0, 1, 1;
@@ -167,27 +173,43 @@ def run_standin(tier="quick", seed=0):
     f = lib.min_native
     f.restype = ctypes.c_int
     rng = random.Random(seed)
-    n = 40 if tier == "quick" else 400
-    bad = None
+    n = 48 if tier == "quick" else 480
+    fams = {0: "rosenbrock", 1: "so3-alignment", 2: "rank-deficient-linear", 3: "illscaled-polynomial"}
+    bad = {}
     runs = 0
-    for i in range(n):
-        prob, strat = i % 3, (i // 3) % 2
-        mi = rng.choice([1, 2, 5, 20, 100])
-        x0 = (ctypes.c_double * 3)(*[rng.uniform(-2, 2) for _ in range(3)])
+
+    def run(prob, strat, mi, x0v):
+        x0 = (ctypes.c_double * 3)(*x0v)
         costs = (ctypes.c_double * 256)()
         st = ctypes.c_int()
         it = ctypes.c_uint()
         k = f(prob, strat, ctypes.c_uint(mi), x0, costs, 256, ctypes.byref(st), ctypes.byref(it))
+        return [costs[j] for j in range(min(k, 256))], st.value, it.value, k
+    for i in range(n):
+        prob, strat = i % 4, (i // 4) % 2
+        mi = rng.choice([1, 2, 5, 20, 100])
+        x0v = [rng.uniform(-2, 2) for _ in range(3)] if prob != 3 else [0.0, 0.0, 0.0]
+        cs, st, it, k = run(prob, strat, mi, x0v)
         runs += 1
-        cs = [costs[j] for j in range(min(k, 256))]
         inc = [(j, cs[j], cs[j + 1]) for j in range(len(cs) - 1) if cs[j + 1] > cs[j] * (1 + 1e-9) + 1e-300]
-        if inc or it.value > mi or (st.value == 2 and it.value != mi) or k != len(cs) or k < 1:
-            bad = dict(problem=prob, strategy=strat, max_iter=mi, x0=list(x0), costs=cs[:12], increases=inc[:3], status=st.value, iter=it.value)
-            break
-    res.standins.append(dict(function="smooth::minimize", points=runs, grid="3 problem families x 2 strategies x max_iter in {1,2,5,20,100}", label="bounded"))
-    if bad:
-        payload = dict(obligation=tag, property=PROP, backend="bounded-standin", reason="callback costs increase / iteration contract violated on the real minimize", witness=bad)
-        res.add(tag, "bounded-fail", "bounded-standin", 0.0, payload["reason"], witness=bad, extra=dict(replay=write_replay(tag, payload), confirmed=True))
-    else:
-        res.add(tag, "bounded-ok", "bounded-standin", 0.0, "%d runs: costs non-increasing, iteration contract holds" % runs)
+        why = None
+        if inc:
+            why = "callback costs increase: %r" % (inc[:2],)
+        elif it > mi or (st == 2 and it != mi) or k != len(cs) or k < 1:
+            why = "iteration/status contract violated (iter=%d, max_iter=%d, status=%d)" % (it, mi, st)
+        elif st != 2 and it >= 1:
+            # metamorphic: a run that converged after `it` iterations must report the same status with a budget of exactly `it`
+            cs2, st2, it2, _ = run(prob, strat, it, x0v)
+            if st2 != st or it2 != it:
+                why = "converged with status %d after %d iterations, but with max_iter=%d reports status %d (iter %d)" % (st, it, it, st2, it2)
+        if why and fams[prob] not in bad:
+            bad[fams[prob]] = dict(problem=fams[prob], strategy=strat, max_iter=mi, x0=x0v, costs=cs[:12], status=st, iter=it, why=why)
+    res.standins.append(dict(function="smooth::minimize", points=runs, grid="4 problem families x 2 strategies x max_iter in {1,2,5,20,100}", label="bounded"))
+    for fam in fams.values():
+        oid = "%s/%s" % (tag, fam)
+        if fam in bad:
+            payload = dict(obligation=oid, property=PROP, backend="bounded-standin", reason=bad[fam]["why"], witness=bad[fam])
+            res.add(oid, "bounded-fail", "bounded-standin", 0.0, payload["reason"][:300], witness=bad[fam], extra=dict(replay=write_replay(oid, payload), confirmed=True))
+        else:
+            res.add(oid, "bounded-ok", "bounded-standin", 0.0, "costs non-increasing, iteration/status contract holds")
     return res
